@@ -7,13 +7,12 @@
 import re
 from collections import namedtuple
 
-from ural.utils import pathsplit, safe_urlsplit, SplitResult
-from ural.patterns import DOMAIN_TEMPLATE
+from ural.get_hostname import get_hostname
+from ural.utils import pathsplit, safe_urlsplit
 
 INSTAGRAM_POST_SHORTCODE_RE = re.compile(r"^[a-zA-Z0-9_\-]+$")
 INSTAGRAM_USERNAME_RE = re.compile(r"^[a-zA-Z0-9_\-\.]+$")
 INSTAGRAM_DOMAIN_RE = re.compile(r"(?:^|\.)instagram\.com$", re.I)
-INSTAGRAM_URL_RE = re.compile(DOMAIN_TEMPLATE % r"(?:[^.]+\.)*instagram\.com", re.I)
 INSTAGRAM_NOT_A_USER_SET = {
     "accounts",
     "ads",
@@ -57,10 +56,12 @@ def is_instagram_url(url):
         bool: Whether given url is from Instagram.
 
     """
-    if isinstance(url, SplitResult):
-        return bool(re.search(INSTAGRAM_DOMAIN_RE, url.hostname))
+    hostname = get_hostname(url)
 
-    return bool(re.match(INSTAGRAM_URL_RE, url))
+    if hostname is None:
+        return False
+
+    return bool(re.search(INSTAGRAM_DOMAIN_RE, hostname))
 
 
 def parse_instagram_url(url):
